@@ -313,6 +313,12 @@ func runC13(col *Collector, tier string, seed int64) {
 		sl := timedCmd{"slow", 0}
 		add(timedSpec{T: T, before: []timedCmd{sl}, cmds: []timedCmd{sl, sl, sl}, after: []timedCmd{sl}}, "full-budget-each")
 	}
+	// ... also when they are hooks: three before hooks / three after hooks at 40% each
+	for _, T := range Ts[:2] {
+		sl := timedCmd{"slow", 0}
+		add(timedSpec{T: T, before: []timedCmd{sl, sl, sl}, cmds: []timedCmd{q}, after: []timedCmd{q}}, "full-budget-each")
+		add(timedSpec{T: T, cmds: []timedCmd{q}, after: []timedCmd{sl, sl, sl}}, "full-budget-each")
+	}
 	// failing (not overrunning) commands with a timeout set behave as without
 	add(timedSpec{T: 200, cmds: []timedCmd{q, {"quick", 3}, q}, allow: true, after: []timedCmd{q}}, "within")
 	add(timedSpec{T: 200, cmds: []timedCmd{q, {"quick", 3}, q}, allow: false, after: []timedCmd{q}}, "within")
